@@ -6,6 +6,7 @@ CONSTANTS
   D = 1
   MaxEvents = 2
   MaxFails = 3
+  Extra = "none"
   Backoff = FALSE
   Closed = FALSE
   ObserveCb = TRUE
